@@ -54,7 +54,7 @@ type vxJob struct {
 	OpChoices  bool       `json:"opChoices"`  // signal choice points before every file operation
 	MaxSignals int        `json:"maxSignals"` // how many signals the explorer may deliver in addition to the final one
 	Faults     []vxFault  `json:"faults"`
-	Cycles     int        `json:"cycles"` // control cycles before the final SIGTERM
+	Cycles     int        `json:"cycles"`               // control cycles before the final SIGTERM
 	InstantsMs []int      `json:"instantsMs,omitempty"` // idle instants for signal choice points (default: start-up wait, first-second delay, between ticks)
 	FinalAtMs  int        `json:"finalAtMs,omitempty"`  // time of the final SIGTERM (default: after Cycles control cycles)
 }
@@ -102,7 +102,7 @@ func vxWriteScript(path, body string) {
 func vxBuildWorld(job vxJob) *vxWorld {
 	w := &vxWorld{job: job}
 	w.fs = env.NewAt(filepath.Join(job.Dir, "sys"))
-	w.fs.Mirror = true
+	w.fs.Real = true // device values live in real tmpfs files: fan2go's real read/parse/write code runs, and the parent can inspect them afterwards
 	w.fs.Locked = true
 	w.dbPath = filepath.Join(job.Dir, "fan2go.db")
 	w.cfgPath = filepath.Join(job.Dir, "fan2go.yaml")
@@ -137,8 +137,8 @@ func vxBuildWorld(job vxJob) *vxWorld {
 			os.WriteFile(d.cmdMode, []byte("ok"), 0644)
 			// behaviour of each script is selected by words in the mode file: <component>:<kind>
 			vxWriteScript(filepath.Join(base, "set.sh"), fmt.Sprintf("m=$(cat %s)\ncase \"$m\" in *pwmwrite:error*) echo refused >&2; exit 1;; *pwmwrite:ignored*) exit 0;; esac\necho \"set $1\" >> %s\nprintf %%s \"$1\" > %s\n", d.cmdMode, d.cmdLog, d.cmdPwm))
-			vxWriteScript(filepath.Join(base, "get.sh"), fmt.Sprintf("m=$(cat %s)\ncase \"$m\" in *pwmread:error*) exit 1;; *pwmread:garbage*) echo garbage; exit 0;; esac\ncat %s\n", d.cmdMode, d.cmdPwm))
-			vxWriteScript(filepath.Join(base, "rpm.sh"), fmt.Sprintf("m=$(cat %s)\ncase \"$m\" in *rpm:error*) exit 1;; *rpm:garbage*) echo garbage; exit 0;; esac\necho $(( 300 + $(cat %s) * 10 ))\n", d.cmdMode, d.cmdPwm))
+			vxWriteScript(filepath.Join(base, "get.sh"), fmt.Sprintf("m=$(cat %s)\ncase \"$m\" in *pwmread:error*) exit 1;; *pwmread:garbage*) echo n/a; exit 0;; *pwmread:blank*) echo; exit 0;; *pwmread:empty*) exit 0;; esac\ncat %s\n", d.cmdMode, d.cmdPwm))
+			vxWriteScript(filepath.Join(base, "rpm.sh"), fmt.Sprintf("m=$(cat %s)\ncase \"$m\" in *rpm:error*) exit 1;; *rpm:garbage*) echo n/a; exit 0;; *rpm:blank*) echo; exit 0;; *rpm:empty*) exit 0;; esac\necho $(( 300 + $(cat %s) * 10 ))\n", d.cmdMode, d.cmdPwm))
 			fmt.Fprintf(&y, "    cmd:\n      setPwm:\n        exec: %s/set.sh\n        args: [\"%%pwm%%\"]\n      getPwm:\n        exec: %s/get.sh\n      getRpm:\n        exec: %s/rpm.sh\n", base, base, base)
 		}
 		w.fans = append(w.fans, d)
@@ -155,7 +155,7 @@ func vxBuildWorld(job vxJob) *vxWorld {
 	case "cmd":
 		w.sensMode = filepath.Join(job.Dir, "sensor.mode")
 		os.WriteFile(w.sensMode, []byte("ok"), 0644)
-		vxWriteScript(filepath.Join(job.Dir, "sensor.sh"), fmt.Sprintf("m=$(cat %s)\ncase \"$m\" in *sensor:error*) exit 1;; *sensor:garbage*) echo garbage; exit 0;; esac\necho 60000\n", w.sensMode))
+		vxWriteScript(filepath.Join(job.Dir, "sensor.sh"), fmt.Sprintf("m=$(cat %s)\ncase \"$m\" in *sensor:error*) exit 1;; *sensor:garbage*) echo n/a; exit 0;; *sensor:blank*) echo; exit 0;; *sensor:empty*) exit 0;; esac\necho 60000\n", w.sensMode))
 		fmt.Fprintf(&y, "    cmd:\n      exec: %s/sensor.sh\n", job.Dir)
 	}
 	y.WriteString("curves:\n")
@@ -174,6 +174,13 @@ func vxBuildWorld(job vxJob) *vxWorld {
 		y.WriteString(lin("member1") + lin("member2") + "  - id: vxcurve\n    function:\n      type: maximum\n      curves:\n        - member1\n        - member2\n")
 	case "func-pid":
 		y.WriteString(pid("member1") + lin("member2") + "  - id: vxcurve\n    function:\n      type: average\n      curves:\n        - member1\n        - member2\n")
+	default:
+		// func2pid-<type>: a function curve of the given type over two PID curves that share the sensor
+		if strings.HasPrefix(job.Curve, "func2pid-") {
+			y.WriteString(pid("member1") + pid("member2") + "  - id: vxcurve\n    function:\n      type: " + strings.TrimPrefix(job.Curve, "func2pid-") + "\n      curves:\n        - member1\n        - member2\n")
+		} else {
+			panic("unknown curve kind " + job.Curve)
+		}
 	}
 	if err := os.WriteFile(w.cfgPath, []byte(y.String()), 0644); err != nil {
 		panic(err)
@@ -276,6 +283,16 @@ func TestVX_daemonChild(t *testing.T) {
 			}
 			return ""
 		}
+		good := map[string]string{} // last good content of files that currently show unparsable content
+		isBad := func(c string) bool { return c == "n/a\n" || c == "\n" || c == "" }
+		restore := func() {
+			for p, c := range good {
+				if cur, err := os.ReadFile(p); err == nil && isBad(string(cur)) {
+					os.WriteFile(p, []byte(c), 0644)
+				}
+				delete(good, p)
+			}
+		}
 		nops := 0
 		waiting := false // a goroutine is inside synctest.Wait (only one may be)
 		w.fs.Intercept = func(kind, path string, value int) *env.Result {
@@ -305,11 +322,21 @@ func TestVX_daemonChild(t *testing.T) {
 				switch k {
 				case "error":
 					return &env.Result{Val: -1, Err: env.ErrNoEnt(path)}
-				case "garbage":
-					_, e := strconv.Atoi("garbage")
-					return &env.Result{Val: 0, Err: e}
 				case "ignored":
 					return &env.Result{}
+				case "garbage", "blank", "empty":
+					// the REAL file shows unparsable content for this read; fan2go's own parser decides what happens
+					content := map[string]string{"garbage": "n/a\n", "blank": "\n", "empty": ""}[k]
+					if cur, err := os.ReadFile(path); err == nil && !isBad(string(cur)) {
+						good[path] = string(cur)
+					}
+					if dyn := w.fs.F(path); dyn != nil && dyn.OnRead != nil {
+						saved := dyn.OnRead
+						dyn.OnRead = nil // no device-model refresh for this read
+						defer func() { dyn.OnRead = saved }()
+					}
+					os.WriteFile(path, []byte(content), 0644)
+					return nil
 				}
 			}
 			return nil
@@ -338,6 +365,7 @@ func TestVX_daemonChild(t *testing.T) {
 				setCmdModes()
 				time.Sleep(vxTick)
 				delete(active, f.Component)
+				restore()
 				setCmdModes()
 			}()
 		}
